@@ -18,14 +18,14 @@ BUDGET = {
 WEIGHTED = ["UPGrad", "DualProj", "MGDA", "PCGrad", "CAGrad", "IMTLG", "AlignedMTL", "Krum", "Mean", "Sum", "Constant", "Random"]
 MUST_REJECT = WEIGHTED + ["GradDrop", "TrimmedMean"]
 RANDOMISED = ["PCGrad", "GradDrop", "Random"]
-F5_TARGETS = {"svd": ["UPGrad", "DualProj", "CAGrad"], "eigh": ["AlignedMTL"], "pinv": ["IMTLG", "ConFIG"], "qp": ["UPGrad", "DualProj"]}
+F5_TARGETS = {"svd": ["UPGrad", "DualProj", "CAGrad"], "eigh": ["AlignedMTL"], "pinv": ["IMTLG", "ConFIG"], "qp": ["UPGrad", "DualProj"], "clarabel": ["CAGrad"]}
 RULE = (
     "a run = a pool of 6..9 aggregator instances (every aggregator except NashMTL, varied parameters), a pool of "
     "5 matrices (shapes incl. m=1, n=1, m>n; rank-deficient, zero and duplicate rows; scales 1e-3..1e3) of "
     "which two differ in row count and/or dtype (float32/float64) from the others -- instances without "
     "row-bound tensors are called across row counts and dtypes -- and a history of 8..16 steps: call(A_i, J_j [, seed]), "
     "corrupt(A_i, J_j, F4 kind at a seeded position: NaN/+Inf/-Inf entry, 0-d/1-d/3-d tensor, row count "
-    "contradicting weights/pref/leak/minimum), kernel-failure(A_i, J_j, F5 site in {svd, eigh, pinv, qp}). "
+    "contradicting weights/pref/leak/minimum), kernel-failure(A_i, J_j, F5 site in {svd, eigh, pinv, qp, clarabel}). "
     "After every step: the bytes of the input are unchanged; a clean call has shape (n,), the input dtype, is "
     "finite, and equals BITWISE a fresh instance of the same configuration on the same matrix (same seed for "
     "the randomised ones), so history -- incl. earlier rejections and faults -- is unobservable; a corrupted "
